@@ -522,13 +522,24 @@ class IndexLevel:
             if level.targets is None:
                 try:
                     # NOTE: as a selection list might be given within the HLoc, it will be tested accross many indices, and should support a partial matching
-                    ilocs.append(level.index._loc_to_iloc(
+                    iloc_leaf = level.index._loc_to_iloc(
                             depth_key,
                             offset=next_offset,
                             partial_selection=True,
-                            ))
+                            )
                 except KeyError:
                     pass
+                else:
+                    if (iloc_leaf.__class__ is slice
+                            and (iloc_leaf.start is None or iloc_leaf.stop is None)
+                            and (iloc_leaf.step is None or iloc_leaf.step > 0)):
+                        # an open-ended slice selects to the boundary of this leaf level, not of the whole hierarchy
+                        iloc_leaf = slice(
+                                next_offset if iloc_leaf.start is None else iloc_leaf.start,
+                                next_offset + level.index.__len__() if iloc_leaf.stop is None else iloc_leaf.stop,
+                                iloc_leaf.step,
+                                )
+                    ilocs.append(iloc_leaf)
             else: # when not at a leaf, we are selecting level_targets to descend withing
                 try: # NOTE: no offset necessary as not a leaf selection
                     iloc = level.index._loc_to_iloc(depth_key, partial_selection=True)
